@@ -37,15 +37,16 @@ Proof.
   intro T. induction l as [|x r IH]; simpl; [constructor|]. apply insert_sorted_ok; assumption.
 Qed.
 
+Lemma opt_cmp_antisym {A} (cmp : A -> A -> comparison) :
+  (forall x y, cmp y x = CompOpp (cmp x y)) -> forall x y, opt_cmp cmp y x = CompOpp (opt_cmp cmp x y).
+Proof. intros H [x|] [y|]; simpl; auto. Qed.
+
 Lemma key_cmp_antisym k a b : key_cmp k b a = CompOpp (key_cmp k a b).
 Proof.
   destruct k as [attr|attr|attr|]; simpl.
-  - destruct (lookup attr (fstrs a)) as [[x|]|], (lookup attr (fstrs b)) as [[y|]|]; try reflexivity.
-    apply String.compare_antisym.
-  - destruct (lookup attr (fnums a)) as [x|], (lookup attr (fnums b)) as [y|]; try reflexivity.
-    apply Z.compare_antisym.
-  - destruct (lookup attr (fbools a)) as [x|], (lookup attr (fbools b)) as [y|]; try reflexivity.
-    apply Z.compare_antisym.
+  - apply opt_cmp_antisym. intros x y. apply String.compare_antisym.
+  - apply opt_cmp_antisym. intros x y. apply Z.compare_antisym.
+  - apply opt_cmp_antisym. intros x y. apply Z.compare_antisym.
   - apply String.compare_antisym.
 Qed.
 
